@@ -198,6 +198,11 @@ def errStr : ErrClass → String
 def readErr (s : String) : ErrClass :=
   if s == "none" then .none else if s == "refused" then .refused else if s == "hang" then .hang else .other
 
+def fullTasks : List StmtFull → List TaskFull
+  | [] => []
+  | .task t :: rest => t :: fullTasks rest
+  | .decl _ _ :: rest => fullTasks rest
+
 def handleC12 (c : Case) (secs : List String) : String :=
   let cwd := absOfRel c.cwd
   match load cwd (c.stmts.map toEnvStmt) with
@@ -212,11 +217,17 @@ def handleC12 (c : Case) (secs : List String) : String :=
       let after := withCache after0 c1
       -- model
       let isClean := sf.hasTask cleanName
-      let m := obsOfModel sf cwd before cleanTaskRun isClean
+      -- does the user's clean task fail (a command with a recorded non-zero status)?
+      let cleanFails := (fullTasks c.stmts).any fun t =>
+        t.clean.name == cleanName && t.cmds.any fun k => match k with | .raw _ o => o.status != 0 | _ => false
+      let taskRun : FS → FS × Bool := fun fs => ((cleanTaskRun fs).1, !cleanFails)
+      let m := obsOfModel sf cwd before taskRun isClean
       let model := s!"ERR {errStr m.err} ; RAN {if isClean then 1 else 0} ; CACHE {presentStr (hasCache m.after)} ; AFTER {snapStr m.after}"
       -- judge on the implementation's behaviour
       let obs : Obs12 := ⟨readErr ((sect secs "ERR").getD "?"), sect secs "RAN" == some "1", before, after⟩
-      let v := if c.judged then verdict (c12 sf cwd obs) else "na"
+      let v := if !c.judged then "na"
+        else if isClean && cleanFails then (if c12failing sf obs then "ok" else "FAIL")
+        else verdict (c12 sf cwd obs)
       -- the same verdict serves the checks this engine is an extra engine of: C19 (what `--clean` may delete) and, when an
       -- output glob is involved, C05 (a glob denotes exactly the matching non-hidden files)
       let hasGlob := (cleanTasks c.stmts).any fun t => !t.globOutputs.isEmpty
@@ -265,11 +276,6 @@ def taskRows (f : File) (env : Str → Option Str) (t : TaskFull) : List String 
         | some o => hexStr o
         | none => "UNMODELLED"
       [hexStr t.clean.name, toString i, cmd, out, "0"]
-
-def fullTasks : List StmtFull → List TaskFull
-  | [] => []
-  | .task t :: rest => t :: fullTasks rest
-  | .decl _ _ :: rest => fullTasks rest
 
 def handleC13 (c : Case) (secs : List String) : String :=
   let cwd := absOfRel c.cwd
